@@ -74,7 +74,7 @@ def Covers (s : State κ ν) (r : Item κ ν) : Prop :=
 
 def InvB (s : State κ ν) : Prop :=
   (s.stopped = false → ∀ x ∈ s.q, s.pc ≠ .absent) ∧
-  (∀ r, (s.pc = .peeked r ∨ s.pc = .polled r ∨ s.pc = .armed r) → Covers s r)
+  (∀ r, (s.pc = .peeked r ∨ s.pc = .polled r ∨ s.pc = .arming r ∨ s.pc = .armed r) → Covers s r)
 
 theorem invB_step {s s' : State κ ν} {a : Label κ ν} (hA : InvA s) (h : InvB s)
     (hst : step fixedCfg s a = some s') : InvB s' := by
@@ -96,21 +96,39 @@ theorem invB {s : State κ ν} (hr : Reach (lts fixedCfg) s) : InvB s := by
   | init => simp [InvB, lts, init]
   | step a hr hst ih => exact invB_step (invA hr) ih hst
 
+/-! ### the timer: late by exactly the clock time between `Now()` and `NewTimer()`, never early -/
+
+def InvT (s : State κ ν) : Prop :=
+  (∀ r, s.pc = .arming r → s.timer = r.time - s.readAt ∧ s.readAt ≤ s.now) ∧
+  (∀ r, s.pc = .armed r → s.timer = r.time + (s.armAt - s.readAt) ∧ s.readAt ≤ s.armAt ∧ s.armAt ≤ s.now)
+
+theorem invT_step {s s' : State κ ν} {a : Label κ ν} (h : InvT s)
+    (hst : step fixedCfg s a = some s') : InvT s' := by
+  unfold InvT at *
+  cases a <;> step_cases hst <;> (try (simp only [process]; split)) <;> (try split) <;>
+    (first | grind | (simp_all; grind))
+
+theorem invT {s : State κ ν} (hr : Reach (lts fixedCfg) s) : InvT s := by
+  induction hr with
+  | init => simp [InvT, lts, init]
+  | step a _ hst ih => exact invT_step ih hst
+
 /-! ### timing: an item on its way to the callback is due (within the half-millisecond margin) -/
 
 def InvC (s : State κ ν) : Prop :=
   ∀ r, (s.pc = .firing r ∨ s.pc = .popped r) → r.time - halfMs < s.now
 
-theorem invC_step {s s' : State κ ν} {a : Label κ ν} (h : InvC s)
+theorem invC_step {s s' : State κ ν} {a : Label κ ν} (hT : InvT s) (h : InvC s)
     (hst : step fixedCfg s a = some s') : InvC s' := by
   unfold InvC at *
+  unfold InvT at hT
   cases a <;> step_cases hst <;> (try (simp only [process]; split)) <;> (try split) <;>
     (first | grind | (simp_all [halfMs, Kit.Generated.C06.runNowMarginNs]; grind))
 
 theorem invC {s : State κ ν} (hr : Reach (lts fixedCfg) s) : InvC s := by
   induction hr with
   | init => simp [InvC, lts, init]
-  | step a _ hst ih => exact invC_step ih hst
+  | step a hr hst ih => exact invC_step (invT hr) ih hst
 
 /-! ### the ghost history describes the queue -/
 
